@@ -55,11 +55,28 @@ C04_FILES = {
     'nsa/c04/Arr.1.0.dsdl': 'nsa.c04.U.1.0[<=3] us\nbool[<=11] bs\nuint8[<=6] bytes\nuint13[<=3] odd\n@sealed\n',
     'nsa/c04/Shift.1.0.dsdl': 'bool x\nuint8[<=4] a\nuint16[<=3] h\nnsa.c04.Inner.1.0 tail\n@sealed\n',
     'nsa/c04/Dl.1.0.dsdl': 'uint8[<=5] xs\nnsa.c04.U.1.0 u\n@extent 256\n',
+    # stores that END EXACTLY AT THE END OF THE BUFFER when serialized at full size into `size` bytes: trailing void fields of 1..64 bits after
+    # aligned / unaligned prefixes, ending on / off a byte boundary, delimited, nested composites ending in voids, arrays of such
+    'nsa/c04/Vt1.1.0.dsdl': 'uint8 a\nvoid16\n@sealed\n',
+    'nsa/c04/Vt2.1.0.dsdl': 'uint4 a\nvoid12\n@sealed\n',
+    'nsa/c04/Vt3.1.0.dsdl': 'bool a\nvoid7\n@sealed\n',
+    'nsa/c04/Vt4.1.0.dsdl': 'uint3 a\nvoid64\n@sealed\n',
+    'nsa/c04/Vt5.1.0.dsdl': 'uint8 a\nvoid64\n@sealed\n',
+    'nsa/c04/Vt6.1.0.dsdl': 'uint5 a\nvoid3\nvoid8\n@sealed\n',
+    'nsa/c04/Vt7.1.0.dsdl': 'uint7 a\nvoid1\nvoid32\n@sealed\n',
+    'nsa/c04/Vt8.1.0.dsdl': 'uint16 a\nvoid33\n@sealed\n',
+    'nsa/c04/Vt9.1.0.dsdl': 'uint6 a\nvoid17\nvoid1\n@sealed\n',
+    'nsa/c04/VtD.1.0.dsdl': 'uint8 a\nvoid24\n@extent 64\n',
+    'nsa/c04/VtN.1.0.dsdl': 'uint8 h\nnsa.c04.Vt2.1.0 m\nbool b\nnsa.c04.Vt1.1.0 t\n@sealed\n',
+    'nsa/c04/VtA.1.0.dsdl': 'nsa.c04.Vt2.1.0[3] xs\nnsa.c04.Vt1.1.0[<=2] ys\n@sealed\n',
+    'nsa/c04/VtE.1.0.dsdl': 'uint8 h\nnsa.c04.VtD.1.0 d\n@sealed\n',
+    'nsa/c04/VtU.1.0.dsdl': '@union\nnsa.c04.Vt1.1.0 a\nnsa.c04.Vt4.1.0 b\nuint8 c\n@sealed\n',
+    'nsa/c04/VtV.1.0.dsdl': 'uint8[<=2] v\nvoid16\n@sealed\n',
     'nsa/c04/Big.1.0.dsdl': 'uint64 big\nnsa.c04.Dl.1.0 d\nnsa.c04.Inner.1.0 i\nnsa.c04.Dl.1.0[<=2] ds\n@sealed\n',
 }
 
-SIZES = {'quick': dict(n_types=8, per_type=10, n_values=6, ser_per_type=8, max_types=22),
-         'thorough': dict(n_types=20, per_type=60, n_values=16, ser_per_type=30, max_types=40)}
+SIZES = {'quick': dict(n_types=8, per_type=10, n_values=6, ser_per_type=8, max_types=38),
+         'thorough': dict(n_types=20, per_type=60, n_values=16, ser_per_type=30, max_types=60)}
 
 
 def matrix(tier: str) -> typing.List[typing.Tuple[str, dict]]:
